@@ -213,7 +213,7 @@ def shards(tier):
         for p1 in range(len(PATHS)):
             if tier == 'quick':
                 out.append(dict(name=f'emit2/p0={p0},p1={p1}', harness='emit2',
-                                fixed=dict(p0=p0, p1=p1, ot=1, oreq=True, ov=False, nr=False, preq=False, unsuccessful=False), budget_s=b))
+                                fixed=dict(p0=p0, p1=p1, oreq=True, ov=False, nr=False, unsuccessful=False), budget_s=b))
             else:
                 for ot in range(3):
                     out.append(dict(name=f'emit2/ot={ot},p0={p0},p1={p1}', harness='emit2', fixed=dict(ot=ot, p0=p0, p1=p1), budget_s=b))
@@ -223,7 +223,7 @@ def shards(tier):
 
 BOUNDS = {
     'quick': dict(spec='port o (valid_type {None,int,str} x required x validator), namespace n (dynamic x int-typed x required) with port n.p (int, required or not)',
-                  emissions='1 emission with every spec combination; 2 emissions with a reduced spec (o:int required, n optional; dynamic/int-typed symbolic)', paths=PATHS,
+                  emissions='1 emission with every spec combination; 2 emissions with a partly fixed spec (o required without validator, n optional; o type, n dynamic/int-typed, n.p required symbolic)', paths=PATHS,
                   values='symbolic int or symbolic str (len <= 2) per emission', ending='plain result or UnsuccessfulResult (symbolic code)'),
     'thorough': dict(spec='as quick, all combinations for 2 emissions', emissions='<= 3', paths=PATHS, values='as quick', ending='as quick'),
 }
